@@ -75,7 +75,10 @@ func (ec *Collector) Len() int { defer with(lock(&ec.mu)); return ec.stack.Len()
 // collector.
 func (ec *Collector) Iterator() *fun.Iterator[error] {
 	defer with(lock(&ec.mu))
-	return fun.CheckProducer(ec.stack.CheckProducer()).Iterator()
+	// iterate over a copy taken while holding the lock: the
+	// stack's own iterator reads the live head node, which a
+	// concurrent Add modifies.
+	return fun.SliceIterator(ec.stack.Unwind())
 }
 
 // Resolve returns an error of type *erc.Stack, or nil if there have
